@@ -681,9 +681,8 @@ def _run_wire(sim, sc, steps, violation, probe, info, threaded):
 
     if threaded:
         apply_pop(pop0)
-        ls.discover()
+        ls = env.start_refresh_thread()     # discovers, then starts the thread
         model.discover(current_seq(), sim.now)
-        light_set_mod._start_light_refresh()
         th = None
     for si, step in enumerate(steps):
         where = 'after step {} {}'.format(si, step)
